@@ -284,5 +284,22 @@ def c13(line, obs, sc, ln, mobs=None):
             continue
         if not obs[v].startswith("Ybefore_notify"):
             out.append(("lost", "tick (events %d..%d) returned running=true; the run it refers to released the lock at event %d and finished at event %d WITHOUT notifying, before any later tick or restart" % (b, k, u, v)))
-    # every completed push is followed by a notification from the pushing thread (counted by the harness)
+    # every push or extend calls notify after the new items are visible: the harness's notify callback, when it is
+    # called on an injector thread, looks at what that thread's call has injected so far (reserved range, injected_items(),
+    # readability of every item of the call) and the thread reports how often it was called; anything but "exactly once,
+    # everything visible" is appended to the thread's result as `!notify(...)`
+    for k in range(n):
+        if evs[k].startswith("st ") and "!notify(" in obs[k]:
+            t = evs[k].split(" ")[1]
+            start = next((e for e in evs[:k] if (e.startswith("push ") or e.startswith("ext ")) and e.split(" ")[1] == t), "?")
+            why = obs[k][obs[k].index("!notify(") + 8:].rstrip(")")
+            what = "Injector::extend" if start.startswith("ext") else "Injector::push"
+            if why == "never":
+                msg = "%s (`%s`) returned at event %d without calling notify" % (what, start, k)
+            elif why.endswith("_calls"):
+                msg = "%s (`%s`) called notify %s times (event %d)" % (what, start, why.split("_")[0], k)
+            else:
+                msg = ("%s (`%s`, completed at event %d) called notify BEFORE the new items were visible: inside the notify callback %s - "
+                       "a tick made in response to that notification does not see the items and nothing notifies again once they are in" % (what, start, k, why.replace(",", ", ")))
+            out.append(("notify_visibility", msg))
     return out
